@@ -985,7 +985,26 @@ class Exec:
         if t.startswith('{closure@'):
             span = t[:t.index('}') + 1]
             rest = t[len(span):].strip()
-            vals = [s.operand(st, fr, x.split(': ', 1)[1]) for x in split_top(rest[1:-1])] if rest else []
+            ops = [x.split(': ', 1)[1] for x in split_top(rest[1:-1])] if rest else []
+            vals = [s.operand(st, fr, x) for x in ops]
+            # rustc's MIR pretty-printer pairs the captured *variables'* names with the capture operands and stops at the shorter list: a closure
+            # that captures two fields of one variable (`iter.array`, `iter.index_back`) is printed with its first capture only. The missing
+            # captures are the references taken immediately before the aggregate that nothing else in the block uses, in order.
+            cf = s.closures.get(span)
+            if cf is not None and getattr(s, '_stmt_ctx', None):
+                need = 1 + max([int(k) for b_ in cf.blocks.values() for l_ in b_ for k in re.findall(r'\(\*_1\)\.(\d+)|\(_1\.(\d+)', l_) for k in k if k] or [-1])
+                if need > len(vals):
+                    stmts_, si_ = s._stmt_ctx
+                    used = set(re.findall(r'_\d+', ' '.join(ops)))
+                    cand = []
+                    for l_ in stmts_[:si_]:
+                        mm_ = re.match(r'(_\d+) = &(?:mut |raw (?:mut|const) )?', l_)
+                        if mm_ and mm_.group(1) not in used and not any(re.search(r'\b%s\b' % mm_.group(1), o_) for o_ in stmts_[:si_] + stmts_[si_ + 1:] if o_ is not l_):
+                            cand.append(mm_.group(1))
+                    if len(vals) + len(cand) != need:
+                        raise NotImplementedError('closure aggregate printed with %d of %d captures (lossy MIR dump) and the missing ones cannot be identified' % (len(vals), need))
+                    # captures are stored in capture order: the printed operand is the first one
+                    vals += [s.load(st, fr, ('local', c_)) for c_ in cand]
             d = dict(enumerate(vals))
             d['__closure__'] = span
             return d
@@ -2135,6 +2154,10 @@ class Exec:
             p, k = args
             if isinstance(p, BlockPtr) and re.search(r'<impl \*(const|mut) (T|MaybeUninit<T>)>::(add|offset)$', c):
                 p = ElemPtr(p.block.arr, bv(0))      # the block's start as a pointer to its first element (`block.cast::<T>()`)
+            if isinstance(p, Slice) and p.stride is None:      # a slice pointer cast to an element pointer (NonNull::<[T]>::cast::<T>())
+                p = with_prov(ElemPtr(p.arr, p.start), p.prov)
+            if isinstance(p, ArrRef):
+                p = with_prov(ElemPtr(p.arr, bv(0)), p.prov)
             return R(ElemPtr(p.arr, p.idx + k, cast=p.cast))
         if re.search(r'<impl \*(const|mut) \[T\]>::(len|is_empty)$', c):
             a = args[0].ptr if isinstance(args[0], BoxVal) else args[0]
@@ -2774,7 +2797,8 @@ class Exec:
                 raise Inconclusive('unwinding assertion: block %s of %s visited more than %d times on one path' % (bb, fn.name, 4 * (s.loop_cap + 2)))
             stmts = fn.blocks[bb]
             s.cur_fn = fn
-            for line in stmts[:-1]:
+            for si_, line in enumerate(stmts[:-1]):
+                s._stmt_ctx = (stmts, si_)
                 if line.startswith(('StorageLive', 'StorageDead', 'nop', 'ConstEvalCounter', 'Retag', 'FakeRead', 'PlaceMention', 'Coverage', 'AscribeUserType')):
                     continue
                 if line.startswith('assume('):
